@@ -36,11 +36,11 @@ def ser(o, memo=None) -> str:
     if memo is None:
         memo = {}
     k = id(o)
-    r = memo.get(k)
-    if r is not None:
-        return r
+    hit = memo.get(k)
+    if hit is not None:
+        return hit[1]
     r = _ser(o, memo)
-    memo[k] = r
+    memo[k] = (o, r)       # holding the object keeps its id from being re-used while the memo lives
     return r
 
 
